@@ -65,7 +65,7 @@ class SolveFlow(WorldFlow):
     def on_call(self, call, state):
         d = dotted(call.func)
         if d == "self.set_solved" or (d and d.endswith(".set_solved") and d.startswith("self")):
-            self.events.append(("writer", call, state, "set_solved()"))
+            self.record(self.events, ("writer", call, state, "set_solved()"))
 
     def effects_of_expr(self, expr, state):
         state = super().effects_of_expr(expr, state)
@@ -95,13 +95,13 @@ class SolveFlow(WorldFlow):
         if target.endswith("._is_solved") and target.startswith("self"):
             tok = self.const_token(value)
             if tok == "True":
-                self.events.append(("writer", stmt, state, "_is_solved = True"))
+                self.record(self.events, ("writer", stmt, state, "_is_solved = True"))
             elif tok in ("False", "None"):
                 pass
             else:
-                self.events.append(("writer-expr", stmt, state, f"_is_solved = {norm(value)}"))
+                self.record(self.events, ("writer-expr", stmt, state, f"_is_solved = {norm(value)}"))
         if target == "self._solution":
-            self.events.append(("solution-store", stmt, state, norm(value)))
+            self.record(self.events, ("solution-store", stmt, state, norm(value)))
 
     def transfer(self, stmt, state):
         state = super().transfer(stmt, state)
@@ -120,13 +120,13 @@ class SolveFlow(WorldFlow):
         return state
 
     def on_return(self, stmt, state):
-        self.events.append(("return", stmt, state, norm(stmt.value) if stmt.value is not None else "None"))
+        self.record(self.events, ("return", stmt, state, norm(stmt.value) if stmt.value is not None else "None"))
 
     def on_fallthrough(self, func, state):
-        self.events.append(("fallthrough", func, state, "end of function"))
+        self.record(self.events, ("fallthrough", func, state, "end of function"))
 
     def on_back_edge(self, loop, state):
-        self.events.append(("back-edge", loop, state, ""))
+        self.record(self.events, ("back-edge", loop, state, ""))
 
 
 def proof_keys(flow: SolveFlow, state) -> List[str]:
@@ -360,11 +360,11 @@ class GetterFlow(WorldFlow):
             if d.startswith("self.") and d.count(".") == 1 and (name in GUARDS or name in self.guarded):
                 state = self._map(state, lambda w: w.set("#checked", ["T"]))
             elif name in DATA_READS and (d.startswith("self.solver.") or (d.startswith("self.") and d.count(".") == 1)):
-                self.events.append(("read", c, state, d))
+                self.record(self.events, ("read", c, state, d))
         return super().effects_of_expr(expr, state)
 
     def on_return(self, stmt, state):
-        self.events.append(("return", stmt, state, norm(stmt.value) if stmt.value is not None else "None"))
+        self.record(self.events, ("return", stmt, state, norm(stmt.value) if stmt.value is not None else "None"))
 
 
 def guarded_state(state) -> bool:
@@ -433,7 +433,7 @@ def r3(prog: Program, rep):
             class _G(GetterFlow):
                 def on_assign(self_inner, stmt, target, value, state):
                     if target == "self._solution":
-                        gstate_at[id(stmt)] = state
+                        gstate_at[id(stmt)] = state if self_inner.quiet == 0 else gstate_at.get(id(stmt))
             g2 = _G(prog, f, gflow.guarded)
             g2.run(f.node)
             for kind, node, state, what in flow.events:
@@ -476,7 +476,7 @@ def r4(prog: Program, rep):
             s.rets = []
 
         def on_return(s, stmt, state):
-            s.rets.append((stmt, state))
+            s.record(s.rets, (stmt, state))
     fl = F()
     fl.run(f.node)
     n_backend = 0
@@ -503,7 +503,7 @@ def r4(prog: Program, rep):
         def on_call(s, call, state):
             d = dotted(call.func) or ""
             if d in ("self.solver.optimize", "self._run_with_timeout"):
-                s.runs.append((call, state))
+                s.record(s.runs, (call, state))
     gl = G()
     gl.run(g.node)
     if not gl.runs:
